@@ -35,7 +35,7 @@ CASES = [
          edits=[dict(file=FB, old="    NameError: name_error,", new="    NameError: value_error,")]),
     dict(name='runtime-class-category-changed', kind='mutant', rule='R3', key='index_error.category',
          edits=[dict(file=FB, old='    """ Runtime IndexError """\n    title = "Index Error"', new='    """ Runtime IndexError """\n    title = "Index Error"\n    category = FeedbackResponse.CATEGORIES.ALGORITHMIC')]),
-    dict(name='dispatch-default-dropped', kind='mutant', rule='R3', key='dispatch',
+    dict(name='dispatch-default-dropped', kind='mutant', rule='R3', key='one-constructor-call',
          edits=[dict(file=SB, old="EXCEPTION_FF_MAP.get(type(self.exception),\n                                                      runtime_error)",
                      new="EXCEPTION_FF_MAP.get(type(self.exception))")]),
     dict(name='feedback-only-for-student-files', kind='mutant', rule='R3', key='one-constructor-call',
